@@ -122,6 +122,8 @@ Next ==
   \/ Walk
   \/ \E s \in Sizes \cup {0}, m \in (IF IsVec THEN {0} ELSE BufMems), v \in Vals : Create(s, m, v)
   \/ \E v \in Vals : InsertOp("push_back", HUGE, v) \/ InsertOp("push_fore", 0, v) \/ PushSort(v)
+  \/ \E v \in Vals : InsertOp("push", HUGE, v)             \* a_*_push / a_*_pull: the short names of the back operations
+  \/ RemoveOp("pull", HUGE)
   \/ \E v \in Vals, i \in Idx : InsertOp("insert", i, v)
   \/ RemoveOp("pull_back", HUGE) \/ RemoveOp("pull_fore", 0)
   \/ \E i \in Idx : RemoveOp("remove", i) \/ At(i)
